@@ -113,6 +113,14 @@ def monitor(sc, obs):
         if any(pyeval.verdict(v, f['sig'], args, kws)[0] != 'accept' for v in pres):
             if a[0] == 'next': g['dead'] = True
             continue      # C01's business
+        # whatever keeps the body from starting (a precondition stage that rejects or crashes) is C01's subject
+        if a[0] == 'call' and not act.bodies():
+            continue
+        if a[0] == 'next' and not g['started']:
+            if not act.bodies():
+                g['dead'] = True; g['tag'] = 'body_not_started'
+                continue
+            g['started'] = True
         if a[0] == 'call':
             expr = f['body'][0][1]
             value = pyeval.ev(expr, b)
@@ -129,7 +137,7 @@ def monitor(sc, obs):
             yields = [s[1] for s in f['body'] if s[0] == 'yield']
             if g['dead']:
                 if act.kind in ('Y',) or act.bodies() or act.effects():
-                    out.append((f'generator was resumed / produced {act.outcome!r} after one of its values was rejected', None))
+                    if g.get('tag') != 'body_not_started': out.append((f'generator was resumed / produced {act.outcome!r} after one of its values was rejected', g.get('tag')))
                 continue
             if g['idx'] >= len(yields):
                 g['dead'] = True
@@ -140,7 +148,7 @@ def monitor(sc, obs):
                 if not (act.kind == 'Y' and act.value == pyeval.show(value)):
                     out.append((f'post/ensure accept yielded {pyeval.show(value)} but the consumer got {act.outcome!r}', tag))
             else:
-                g['dead'] = True
+                g['dead'] = True; g['tag'] = tag      # what follows is a consequence of this rejection
                 if act.kind in ('R', 'Y'):
                     out.append((f'yielded value {act.value} reached the consumer although a post/ensure contract rejects it (expected {exc})', tag))
                 elif act.exc_class != exc:
